@@ -124,6 +124,22 @@ def second_use(table, key):
 def clear_all(moments, qubits: Iterable[int]):
     for m in moments:
         m.discard_all(qubits)
+
+def pad(windows, rows, q, g, g_inv):
+    for s, e in windows:
+        first = rows[s].get(q)
+        last = rows[e].get(q)
+        rows[s][q] = (first, g)
+        rows[e][q] = (g_inv, last)
+
+def placeholders(op):
+    mask = op.gate.invert_mask or (False,) * len(op.qubits)
+    return [(q, b) for q, b in zip(op.qubits, mask)]
+
+def frozen_args(args):
+    if all(isinstance(a, Hashable) for a in args.values()):
+        return frozenset(args.items())
+    return tuple(args.items())
 '''
     good = '''
 def make(a, opt=None):
@@ -206,10 +222,28 @@ def clear_all(moments, qubits: Iterable[int]):
     qubits = frozenset(qubits)
     for m in moments:
         m.discard_all(qubits)
+
+def pad(windows, rows, q, g, g_inv):
+    for s, e in windows:
+        first = rows[s].get(q)
+        rows[s][q] = (first, g)
+        last = rows[e].get(q)
+        rows[e][q] = (g_inv, last)
+
+def placeholders(op):
+    mask = op.gate.invert_mask or ()
+    mask += (False,) * (len(op.qubits) - len(mask))
+    return [(q, b) for q, b in zip(op.qubits, mask)], [q for q, b in zip(op.qubits, op.gate.invert_mask) if b]
+
+def frozen_args(args):
+    try:
+        return frozenset(args.items())
+    except TypeError:
+        return tuple(args.items())
 '''
     rel = 'cirq-core/cirq/work/zz_fixture.py'
     base = core.Repo()
-    for src, want in ((bad, {'z_fwd': 1, 'z_drop': 1, 'z_pair': 2, 'z_get': 1, 'z_ctor': 1, 'z_opt': 1, 'z_gen': 1, 'z_memo': 1, 'z_first': 1, 'z_inv': 1, 'z_coord': 1, 'z_none': 1, 'z_loop': 1}), (good, {})):
+    for src, want in ((bad, {'z_fwd': 1, 'z_drop': 1, 'z_pair': 2, 'z_get': 1, 'z_ctor': 1, 'z_opt': 1, 'z_gen': 1, 'z_memo': 1, 'z_first': 1, 'z_inv': 1, 'z_coord': 1, 'z_none': 1, 'z_loop': 1, 'z_stale': 1, 'z_mask': 1, 'z_hash': 1}), (good, {})):
         r = core.Repo(overlay={rel: src}, base=base)
         ctx = report.Ctx('C18', 'quick', r)
         general.apply(ctx, 'C18')
